@@ -263,6 +263,7 @@ def run(P, rep, tier):
 
     # members each constructor allocates (pointer members at top level)
     by_dctor = {}
+    elem_by_dctor = {}
     before = {}      # dctor -> {member G: members whose allocation dominates G's allocation in the constructor}
     for f, (dev, dname, rec) in ctors.items():
         flds = set()
@@ -270,6 +271,11 @@ def run(P, rep, tier):
         for ev, lf in sites:
             flds.add(lf)
         by_dctor.setdefault(dname, set()).update(flds)
+        # members whose *elements* the constructor allocates one by one (EB_NEW(obj->arr[i], ...)): a failure in between leaves
+        # later elements NULL although the array itself exists
+        for ev, lf, kind, lvl, mac, t in alloc_sites(f):
+            if lf and lvl == 'elem':
+                elem_by_dctor.setdefault(dname, set()).add(lf)
         for evg, g in sites:
             for evf, ff in sites:
                 if ff != g and f.ev_dominates(evf, evg):
@@ -312,6 +318,15 @@ def run(P, rep, tier):
                 p = '%s->%s' % (o, lf.split('.', 1)[1])
                 taint.append(p)
                 m2f[p] = lf
+        # element paths dereferenced in the destructor: obj->arr[K]->...  (the guard must be on the element, not on the array)
+        from engine.nulldom import canon as _canon
+        for ev in d.events(('dr',)):
+            b = strip(ev['e'])
+            if b is not None and b[0] == 'i' and strip(b[1]) is not None and strip(b[1])[0] == 'm' and strip(b[1])[1] in elem_by_dctor.get(dname, ()):
+                pth = pstr(_canon(b, None))
+                if pth not in m2f:
+                    taint.append(pth)
+                    m2f[pth] = strip(b[1])[1]
         imp = {}
         for o in objs:
             for g, fs in before.get(dname, {}).items():
@@ -328,6 +343,23 @@ def run(P, rep, tier):
                 if all(any(last_field(e2['e']) == ff and h.ev_dominates(e2, evg) for e2 in h.events(('dr', 'ix'))) for h, evg in gsites):
                     for o in objs:
                         imp.setdefault('%s->%s' % (o, g.split('.', 1)[1]), set()).add('%s->%s' % (o, ff.split('.', 1)[1]))
+        # the same implication for element paths: G != NULL implies that the elements of F exist when every allocation site of G is
+        # dominated by a dereference through an element of F (the init code was already working through F[i] when it created G)
+        for pth, lf0 in list(m2f.items()):
+            if '[' not in pth:
+                continue
+            for g, gsites in allsites.items():
+                if g.split('.', 1)[0] not in recs or g == lf0:
+                    continue
+                def _elem_deref(h, evg):
+                    for e2 in h.events(('dr',)):
+                        b2 = strip(e2['e'])
+                        if b2 is not None and b2[0] == 'i' and strip(b2[1]) is not None and strip(b2[1])[0] == 'm' and strip(b2[1])[1] == lf0 and h.ev_dominates(e2, evg):
+                            return True
+                    return False
+                if all(_elem_deref(h, evg) for h, evg in gsites):
+                    for o in objs:
+                        imp.setdefault('%s->%s' % (o, g.split('.', 1)[1]), set()).add(pth)
         viol = nd.analyse(d, taint, implies=imp, follow_members=True)
         badp = {}
         for ev, p, kind, detail in viol:
